@@ -1031,7 +1031,9 @@ func gnNodeStream(rng *rand.Rand, n int, tier string, out string) (*Summary, err
 							}
 						}
 						for _, k := range leafMapDiff(lmPre, lmPost, 50) {
-							if !gnUnder(k, s.lm) && !(strings.HasSuffix(k, "#presence") || strings.HasSuffix(k, "#entry")) {
+							// the order record of an ordered list on the way to the deleted node changes with it
+							onSpine := strings.HasSuffix(k, "#order") && strings.HasPrefix(s.lm, strings.TrimSuffix(k, "#order"))
+							if !gnUnder(k, s.lm) && !onSpine && !(strings.HasSuffix(k, "#presence") || strings.HasSuffix(k, "#entry")) {
 								lost = append(lost, k)
 							}
 							if !gnUnder(k, s.lm) && strings.HasSuffix(k, "#presence") {
